@@ -69,6 +69,11 @@ struct Log {
     parked_waits: u64,
     timed_nones: Vec<(u64, u64, bool)>, // (T ms, elapsed ns, main had begun releasing receivers)
     unblock_while_parked: bool,
+    /// logical time stamps (one global counter): a push has returned; a receive call started (and
+    /// whether it came back with an element); a try_recv that came back empty-handed (start, end)
+    pushes_done: Vec<u64>,
+    pops: Vec<(u64, bool)>,
+    try_nones: Vec<(u64, u64)>,
 }
 
 pub fn run_queue_case(prop: &'static str, case: &QueueCase) -> Verdict {
@@ -84,10 +89,12 @@ pub fn run_queue_case(prop: &'static str, case: &QueueCase) -> Verdict {
         let sh = Arc::new(Shared { st: rt::sync::Mutex::new(St::default()), cv: rt::sync::Condvar::new() });
         let done = Arc::new(AtomicBool::new(false));
         let unblocks_started = Arc::new(AtomicUsize::new(0));
+        let seq = Arc::new(std::sync::atomic::AtomicU64::new(1));
         let total: usize = c.pushers.iter().map(|p| p.len()).sum();
         let mut handles = vec![];
         for (ri, ops) in c.receivers.iter().cloned().enumerate() {
             let (q, sh, done, lg, us) = (q.clone(), sh.clone(), done.clone(), lg.clone(), unblocks_started.clone());
+            let seq = seq.clone();
             let counting = c.counting;
             let hold = c.hold;
             let total_elems = total;
@@ -104,15 +111,21 @@ pub fn run_queue_case(prop: &'static str, case: &QueueCase) -> Verdict {
                     k += 1;
                     let waits_before = rt::probe::condvar_waits_of_current_task();
                     let t0 = rt::time::Instant::now();
+                    let seq_start = seq.fetch_add(1, Ordering::SeqCst);
                     let r = match &op {
                         RecvOp::Recv => q.pop(),
                         RecvOp::RecvTimeout(ms) => q.pop_timeout(timeout_of(*ms)),
                         RecvOp::TryRecv => q.try_pop(),
                     };
+                    let seq_end = seq.fetch_add(1, Ordering::SeqCst);
                     let elapsed = t0.elapsed();
                     let waits_after = rt::probe::condvar_waits_of_current_task();
                     {
                         let mut l = lg.lock().unwrap();
+                        l.pops.push((seq_start, r.is_some()));
+                        if op == RecvOp::TryRecv && r.is_none() && !done.load(Ordering::SeqCst) {
+                            l.try_nones.push((seq_start, seq_end));
+                        }
                         l.parked_waits += waits_after - waits_before;
                         if op == RecvOp::TryRecv && waits_after != waits_before {
                             l.violations.push(("try_recv-blocked".into(), format!("try_recv waited on the queue's condition variable {} times", waits_after - waits_before)));
@@ -157,6 +170,7 @@ pub fn run_queue_case(prop: &'static str, case: &QueueCase) -> Verdict {
         }
         for (pi, yields) in c.pushers.iter().cloned().enumerate() {
             let (q, sh) = (q.clone(), sh.clone());
+            let (seq, lg) = (seq.clone(), lg.clone());
             let sleeps: Vec<u16> = c.sleeps.get(pi).cloned().unwrap_or_default();
             handles.push(shuttle::thread::spawn(move || {
                 for (k, y) in yields.iter().enumerate() {
@@ -170,6 +184,8 @@ pub fn run_queue_case(prop: &'static str, case: &QueueCase) -> Verdict {
                         rt::thread::yield_now();
                     }
                     q.push((pi * 100 + k) as u32);
+                    let at = seq.fetch_add(1, Ordering::SeqCst);
+                    lg.lock().unwrap().pushes_done.push(at);
                 }
                 let mut st = sh.st.lock().unwrap();
                 st.pushers_done += 1;
@@ -267,6 +283,19 @@ pub fn run_queue_case(prop: &'static str, case: &QueueCase) -> Verdict {
     }
     if let Some((k, d)) = l.violations.first() {
         return fail(format!("{}/queue/{}", prop, k), d.clone());
+    }
+    // try_recv and emptiness (histories without unblock markers): a call that came back empty-handed
+    // although the queue held a request during the whole call.  Lower bound of the queue length in
+    // the call's window = pushes that had returned before it started - receives that started before
+    // it ended and got a request
+    if case.unblocks.is_empty() && !case.counting {
+        for (s0, e0) in &l.try_nones {
+            let pushed = l.pushes_done.iter().filter(|p| *p < s0).count();
+            let taken = l.pops.iter().filter(|(st, ok)| *ok && st < e0).count();
+            if pushed > taken {
+                return fail(format!("{}/queue/try_recv-empty-handed-while-requests-queued", prop), format!("a try_recv returned nothing although at least {} requests were queued during the whole call ({} pushes had returned before it started, {} receives that started before it ended got a request) and no unblock() was ever issued", pushed - taken, pushed, taken));
+            }
+        }
     }
     // conservation: exactly the pushed ids, each once
     let mut want: Vec<u32> = case.pushers.iter().enumerate().flat_map(|(pi, p)| (0..p.len()).map(move |k| (pi * 100 + k) as u32)).collect();
